@@ -450,3 +450,186 @@ theorem constructGeneric_field {opts : List OptInst} (c : Config) (hv : AllValid
     rw [this, if_neg hnd'.1]
 
 end Scrapli.Options
+
+namespace Scrapli.Options
+open Scrapli Scrapli.Gen.Options
+
+/-! ## declarative reading of the constructors (`spec*`) -/
+
+/-- decidable form of `Compat` (used by the model driver to evaluate the hypothesis per case) -/
+def compatB (a b : OptInst) : Bool :=
+  disjointKeys a b &&
+    (match errOf (spec a.opt) a, errOf (spec b.opt) b with
+     | some x, some y => x == y
+     | _, _ => true)
+
+theorem compatB_iff (a b : OptInst) : compatB a b = true ↔ Compat a b := by
+  unfold compatB Compat
+  cases ha : errOf (spec a.opt) a <;> cases hb : errOf (spec b.opt) b <;> simp
+
+def pairwiseB {α : Type} (r : α → α → Bool) : List α → Bool
+  | [] => true
+  | a :: l => l.all (r a) && pairwiseB r l
+
+theorem pairwiseB_iff {α : Type} (r : α → α → Bool) (l : List α) :
+    pairwiseB r l = true ↔ l.Pairwise (fun a b => r a b = true) := by
+  induction l with
+  | nil => simp [pairwiseB]
+  | cons a l ih => simp [pairwiseB, List.pairwise_cons, ih, List.all_eq_true]
+
+def allValidB (opts : List OptInst) : Bool := opts.all fun o => (errOf (spec o.opt) o).isNone
+
+theorem allValidB_iff (opts : List OptInst) : allValidB opts = true ↔ AllValid opts := by
+  simp [allValidB, AllValid, List.all_eq_true, Option.isNone_iff_eq_none]
+
+/-- `generic.NewDriver`, declaratively: each field is computed on its own -/
+def specGeneric (opts : List OptInst) (c : Config) : Config := fun f =>
+  if f = .generic_Driver_Logger then
+    fillLogger .generic_Driver_Logger (afterPass .generic_Driver opts c) .generic_Driver_Logger
+  else if f.target ∈ genericReached opts c then fieldAfter f.target opts f (c f) else c f
+
+theorem constructGeneric_eq_spec {opts : List OptInst} (c : Config) (hv : AllValid opts) :
+    constructGeneric opts c = .ok (specGeneric opts c) := by
+  obtain ⟨c', h, h1, h2⟩ := constructGeneric_field c hv
+  rw [h]
+  congr 1
+  funext f
+  unfold specGeneric
+  by_cases hf : f = .generic_Driver_Logger
+  · subst hf; simp [h2]
+  · simp [hf, h1 f hf]
+
+theorem genericReached_mem {opts : List OptInst} {c : Config} {T : Target} (h : T ∈ genericReached opts c) :
+    T ≠ .network_Driver ∧ T ≠ .netconf_Driver ∧ T ≠ .logging_Instance := by
+  unfold genericReached at h
+  simp only [List.cons_append, List.nil_append, List.mem_cons, List.mem_append, List.mem_singleton,
+    List.not_mem_nil, or_false] at h
+  rcases h with h | h | h | h
+  · subst h; decide
+  · subst h; decide
+  · rcases transportTargets_mem h with h | h | h | h | h | h <;> (subst h; decide)
+  · subst h; decide
+
+theorem specGeneric_unreached {opts : List OptInst} {c : Config} {f : Field}
+    (h : f.target = .network_Driver ∨ f.target = .netconf_Driver ∨ f.target = .logging_Instance) :
+    specGeneric opts c f = c f := by
+  unfold specGeneric
+  have hl : f ≠ .generic_Driver_Logger := by
+    intro e; subst e
+    rcases h with h | h | h <;> cases h
+  have hn : f.target ∉ genericReached opts c := by
+    intro hm
+    have := genericReached_mem hm
+    rcases h with h | h | h
+    · exact this.1 h
+    · exact this.2.1 h
+    · exact this.2.2 h
+  simp [hl, hn]
+
+/-- `network.NewDriver`, declaratively -/
+def specNetwork (opts : List OptInst) (c : Config) : Except Err Config :=
+  let dp := fieldAfter .network_Driver opts .network_Driver_DefaultDesiredPriv (c .network_Driver_DefaultDesiredPriv)
+  let pl := fieldAfter .network_Driver opts .network_Driver_PrivilegeLevels (c .network_Driver_PrivilegeLevels)
+  if dp == [[]] || pl.isEmpty then .error .badOption
+  else .ok fun f =>
+    if f = .channel_Channel_PromptPattern then pl.map privPattern
+    else if f.target = .network_Driver then fieldAfter .network_Driver opts f (c f)
+    else specGeneric opts c f
+
+theorem constructNetwork_eq_spec {opts : List OptInst} (c : Config) (hv : AllValid opts) :
+    constructNetwork opts c = specNetwork opts c := by
+  unfold constructNetwork
+  rw [constructGeneric_eq_spec c hv]
+  show (pass .network_Driver opts _ >>= _) = _
+  rw [pass_valid _ hv]
+  have e1 : afterPass .network_Driver opts (specGeneric opts c) .network_Driver_DefaultDesiredPriv =
+      fieldAfter .network_Driver opts .network_Driver_DefaultDesiredPriv (c .network_Driver_DefaultDesiredPriv) := by
+    unfold afterPass
+    rw [specGeneric_unreached (Or.inl rfl)]
+  have e2 : afterPass .network_Driver opts (specGeneric opts c) .network_Driver_PrivilegeLevels =
+      fieldAfter .network_Driver opts .network_Driver_PrivilegeLevels (c .network_Driver_PrivilegeLevels) := by
+    unfold afterPass
+    rw [specGeneric_unreached (Or.inl rfl)]
+  show (if (afterPass .network_Driver opts (specGeneric opts c) .network_Driver_DefaultDesiredPriv == [[]] ||
+      (afterPass .network_Driver opts (specGeneric opts c) .network_Driver_PrivilegeLevels).isEmpty) = true then _ else _) = _
+  unfold specNetwork
+  simp only [e1, e2]
+  split
+  · rfl
+  · congr 1
+    funext f
+    by_cases hp : f = .channel_Channel_PromptPattern
+    · simp [hp, setField]
+    · rw [setField_other _ _ hp]
+      simp only [hp, if_false]
+      by_cases ht : f.target = .network_Driver
+      · simp only [ht, if_true]
+        unfold afterPass
+        rw [specGeneric_unreached (Or.inl ht)]
+      · simp only [ht, if_false]
+        exact afterPass_other opts _ ht
+
+/-- `netconf.NewDriver`, declaratively (options = the caller's followed by `withNetconfConnection(true)`) -/
+def specNetconf (opts : List OptInst) (c : Config) : Config :=
+  let opts' := opts ++ [netconfConnectionOpt]
+  let g := specGeneric opts' c
+  fun f =>
+    if f = .channel_Channel_PromptPattern then [Gen.Netconf.v1Dot0Delim]
+    else if f = .netconf_Driver_TransportType then
+      fieldAfter .netconf_Driver opts' f (g .generic_Driver_TransportType)
+    else if f = .netconf_Driver_Logger then
+      (let v := fieldAfter .netconf_Driver opts' f (g .generic_Driver_Logger)
+       if v == [tokNil] then [tokNoopLogger] else v)
+    else if f.target = .netconf_Driver then fieldAfter .netconf_Driver opts' f (c f)
+    else g f
+
+theorem constructNetconf_eq_spec {opts : List OptInst} (c : Config)
+    (hv : AllValid (opts ++ [netconfConnectionOpt])) :
+    constructNetconf opts c = .ok (specNetconf opts c) := by
+  unfold constructNetconf
+  simp only []
+  rw [constructGeneric_eq_spec c hv]
+  show (pass .netconf_Driver _ _ >>= _) = _
+  rw [pass_valid _ hv]
+  show Except.ok _ = _
+  congr 1
+  funext f
+  unfold specNetconf
+  simp only []
+  by_cases hp : f = .channel_Channel_PromptPattern
+  · simp [hp, setField]
+  · rw [setField_other _ _ hp]
+    simp only [hp, if_false]
+    by_cases h1 : f = .netconf_Driver_TransportType
+    · subst h1
+      rw [fillLogger_other _ (by decide)]
+      simp [afterPass, setField]
+    · simp only [h1, if_false]
+      by_cases h2 : f = .netconf_Driver_Logger
+      · subst h2
+        simp only [if_true]
+        have e : setField (specGeneric (opts ++ [netconfConnectionOpt]) c) .netconf_Driver_TransportType
+            (specGeneric (opts ++ [netconfConnectionOpt]) c .generic_Driver_TransportType) .generic_Driver_Logger =
+            specGeneric (opts ++ [netconfConnectionOpt]) c .generic_Driver_Logger :=
+          setField_other _ _ (by decide)
+        unfold fillLogger
+        simp only [afterPass, setField_same, e]
+        split
+        · rename_i h
+          have h' := h
+          simp only [beq_iff_eq] at h'
+          simp [setField, h']
+        · rename_i h
+          have h' := h
+          simp only [beq_iff_eq] at h'
+          simp [h', afterPass, setField_same, e]
+      · simp only [h2, if_false]
+        rw [fillLogger_other _ h2]
+        by_cases ht : f.target = .netconf_Driver
+        · simp only [ht, if_true]
+          unfold afterPass
+          rw [setField_other _ _ h2, setField_other _ _ h1, specGeneric_unreached (Or.inr (Or.inl ht))]
+        · simp only [ht, if_false]
+          rw [afterPass_other _ _ ht, setField_other _ _ h2, setField_other _ _ h1]
+
+end Scrapli.Options
